@@ -15,6 +15,8 @@
 #include <unistd.h>
 #include <sys/wait.h>
 #include <hdf5.h>
+#include <algorithm>
+#include <nix/util/util.hpp>
 #include "vf.hpp"
 #include "obs.hpp"
 #include "ops.hpp"
@@ -108,6 +110,7 @@ int main(int argc, char **argv) {
     E.oopt.data = false; E.oopt.lookups = false;
     E.add_seed("E", nullptr);
     E.add_seed("R1", ops::build_seed_r1);
+    E.add_seed("R3", ops::build_seed_r3);
     auto run_a = [&](const std::string &seedname, int level, int depth) {
         E.alpha = ops::entity_alphabet(level % 10);
         if (level >= 10) {
@@ -182,6 +185,7 @@ int main(int argc, char **argv) {
     if (!vf::opt.extra.count("schedule")) {
         run_a("E", 1, thorough ? 4 : 3);
         run_a("R1", 2, 1);
+        run_a("R3", 2, 1);      // two blocks: the alphabet's link attempts across blocks are enabled here
         run_a("R1", 12, 4);
     }
 
@@ -291,6 +295,34 @@ int main(int argc, char **argv) {
             }
             if (cid % 41 == 0) vf::sample("{\"schedule\":" + vf::jstr(sdesc) + "}", 5);
             if (vf::deadline_hit()) break;
+        }
+    }
+    // ---- a large population of ids of ONE process: 400 000 ids drawn through util::createId() and through entity creation must be
+    //      pairwise distinct and well-formed.  This is not exhaustive enumeration but a population bound: with 122 random bits a
+    //      repetition among 4e5 ids has probability below 1e-25; a generator whose ids are a function of a 32-bit (or smaller) seed
+    //      repeats with probability above 0.9999 (birthday bound).
+    {
+        long cid = caseno_b++;
+        if (vf::take_case(cid)) {
+            vf::case_desc("population of 400 000 ids drawn in one process");
+            const size_t NPOP = 400000;
+            std::vector<std::string> ids; ids.reserve(NPOP + 600);
+            vf::set_clock(T);
+            { File f = File::open(vf::scratch_file("pop.h5"), FileMode::Overwrite); ids.push_back(f.id());
+              Block b = f.createBlock("b", "t"); ids.push_back(b.id());
+              for (int i = 0; i < 500; i++) ids.push_back(b.createDataArray("a" + std::to_string(i), "t", DataType::Double, NDSize({1})).id());
+              f.close(); }
+            for (size_t i = ids.size(); i < NPOP; i++) ids.push_back(util::createId());
+            size_t malformed = 0;
+            for (auto &id : ids) if (!well_formed(id)) malformed++;
+            std::sort(ids.begin(), ids.end());
+            size_t dup = 0; std::string ex;
+            for (size_t i = 0; i + 1 < ids.size(); i++) if (ids[i] == ids[i + 1]) { if (!dup) ex = ids[i]; dup++; }
+            vf::count("ids_checked", (long)ids.size());
+            vf::count("population_ids", (long)ids.size());
+            vf::distinct("outcomes", std::string("population|") + (dup ? "repetitions" : "all distinct"));
+            if (malformed) vf::violation("C12|population of ids of one process|malformed ids", std::to_string(malformed) + " of " + std::to_string(ids.size()));
+            if (dup) vf::violation("C12|population of ids of one process|ids collide", std::to_string(dup) + " repetitions among " + std::to_string(ids.size()) + " ids, e.g. " + ex);
         }
     }
     // ---- ids across open modes and the Force flag: "an id never changes" also when the file is opened with Force although
